@@ -50,6 +50,13 @@ fn main() {
                 sched_assumptions,
             )
         }
+        "C11" => {
+            parts.push(make_part("sched-conn", "SCHED", cli.cases(6_000, 200_000), convsched::c11_strategy, |_| (), |_, c| convsched::c11_oracle(c, &convsched::run_sched_conv(c))));
+            (
+                "part sched-conn: the real ClientConnection under the controlled scheduler: pipelines of 2-8 requests whose bodies are absent or <= 1024 bytes (1024 forced often), optionally one request with a larger or chunked body at a generated position; application programs: (a) collect every request up to and including the first streamed one before answering any, (b) read the streamed body to its end and - still holding that request unanswered - take its successor, (c) answer the streamed one, successors handled by another task; oracle: every collect succeeds while the client has received nothing (otherwise exact deadlock report), afterwards the whole pipeline is delivered and answered; non-trivial: >= 2 requests held unanswered at once",
+                sched_assumptions,
+            )
+        }
         other => {
             eprintln!("vsched: no parts for property {}", other);
             std::process::exit(3)
